@@ -10,7 +10,7 @@ Theorem C09_reversed : forall (L : Type) (ldef : L) hs (g : @dgraph L), Inv hs g
   exists h, reversed ldef hs repaired g = Val h /\ Inv hs h /\ KeysOK h /\ size h = size g /\
     (forall i j, In i (nb h j) <-> In j (nb g i)) /\
     (hs = true -> forall i j, lfind (j, i) (labels h) = lfind (i, j) (labels g)).
-Proof. intros L ldef hs g I; apply (reversed_spec ldef hs g I). Qed.
+Proof. intros L ldef hs g I; apply (reversed_spec (fun _ _ => true) ldef hs g I). Qed.
 Print Assumptions C09_reversed.
 
 (* reversing twice gives a graph that operator== finds equal to the original (for a reflexive label equality) *)
